@@ -149,6 +149,20 @@ fn conv_case(rt: &tokio::runtime::Runtime, dir: &Path, case: &Value, n: usize) -
 	ev
 }
 
+/// the same tile set with every payload ~300 bytes LONGER (other content): what an EARLIER export into the same target looked
+/// like. A conversion into a target that already holds such an export must give the same result as into a fresh one.
+fn earlier_export_case(c: &Value) -> Value {
+	let mut c2 = c.clone();
+	let mut m = serde_json::Map::new();
+	for t in c["tiles"].as_array().unwrap() {
+		let p = t[3].as_u64().unwrap() as u32;
+		let (size, code) = class_of(c, p);
+		m.insert(p.to_string(), if code == 4 { json!([301, 1]) } else { json!([size + 301, code]) });
+	}
+	c2["classes"] = Value::Object(m);
+	c2
+}
+
 fn recomp_case(rt: &tokio::runtime::Runtime, dir: &Path, case: &Value, n: usize) -> Value {
 	// source: pbf tiles stored with src_tc; payload classes given per id
 	let mut c = case.clone();
@@ -243,6 +257,14 @@ fn recomp_case(rt: &tokio::runtime::Runtime, dir: &Path, case: &Value, n: usize)
 		std::fs::create_dir_all(&path).unwrap();
 	}
 	let p = path.to_str().unwrap().to_string();
+	// the target already holds an earlier export of the same coordinates with LONGER tiles and metadata (not for MBTiles:
+	// a database is updated, not rewritten)
+	if fmt != "mbtiles" {
+		let earlier = source_of(&earlier_export_case(&c));
+		let mut m = earlier.mem_reader();
+		m.tilejson.set_string("name", &format!("{meta_name} (an earlier export with a much longer name: {})", "x".repeat(200))).unwrap();
+		let _ = catch(|| rt.block_on(convert_tiles_container(Box::new(m), mk_cp(), &p)));
+	}
 	let r = catch(|| rt.block_on(convert_tiles_container(Box::new(mk_mem()), mk_cp(), &p)));
 	if matches!(r, Ok(Ok(()))) {
 		ev["file"] = recomp_file(fmt, &path, &raw, meta_name);
@@ -403,6 +425,18 @@ fn cli_recomp_case(bin: &str, dir: &Path, case: &Value, n: usize, override_input
 	}
 	args.push(sp.to_str().unwrap().into());
 	args.push(path.to_str().unwrap().into());
+	// the target already holds an earlier export (same coordinates, longer tiles and metadata) made by the same command
+	if fmt != "mbtiles" {
+		let earlier = source_of(&earlier_export_case(&c));
+		let ep = dir.join("cli_rsrc_earlier.versatiles");
+		let emeta = serde_json::to_vec(&json!({"name": format!("{meta_name} (an earlier export with a much longer name: {})", "x".repeat(200)), "tilejson": "3.0.0"})).unwrap();
+		std::fs::write(&ep, indep::encode_versatiles("pbf", declared_in, &earlier.raw_tiles(), Some(&emeta), &indep::VtChoices { partial_blocks: true, reverse_tiles: false, share_all: false, index_first: false, shuffle_blocks: false, gap: 0 })).unwrap();
+		let mut a2 = args.clone();
+		let k = a2.len() - 2;
+		a2[k] = ep.to_str().unwrap().into();
+		let _ = run_cli(bin, &a2);
+		let _ = std::fs::remove_file(&ep);
+	}
 	let (exit, err) = run_cli(bin, &args);
 	let mut ev = json!({"ev":"clirecomp","id":n,"tiles":src.tiles_json(),"src_tc":src_tc,"target":target,"force":force as u8,"fmt":fmt,"override":override_input as u8,"exit":exit,
 		"args":args[1..args.len()-2],"err":if exit == 0 { String::new() } else { err }});
